@@ -416,8 +416,13 @@ static void corpus_unit(uint64_t i) {
   }
   if (va.live) va_release_all();
 }
+static uint64_t dfs1_units;
 static void unit(uint64_t u) {
   va_cap = 1 << 20;
+  if (u >= dfs_units + con_units + misc_units + vf_corpus_count()) { /* deeper, over the structural alphabet Sigma' */
+    vf_dfs_unit(&VF_SIGMA1, vf_tier ? 6 : 5, u - (dfs_units + con_units + misc_units + vf_corpus_count()), VF_L, 64 * 1024, seq_cb, NULL);
+    return;
+  }
   if (u >= dfs_units + con_units + misc_units) { corpus_unit(u - dfs_units - con_units - misc_units); return; }
   if (u < dfs_units) { vf_dfs_unit(&VF_SIGMA, dfs_k, u, VF_L, 64 * 1024, seq_cb, NULL); return; }
   u -= dfs_units;
@@ -425,7 +430,7 @@ static void unit(uint64_t u) {
   u -= con_units;
   if (u < misc_units) misc_unit();
 }
-static uint64_t units(void) { return dfs_units + con_units + misc_units + vf_corpus_count(); }
+static uint64_t units(void) { return dfs_units + con_units + misc_units + vf_corpus_count() + dfs1_units; }
 static void init(void) {
   vf_enum_init();
   vf_corpus_init();
@@ -433,6 +438,7 @@ static void init(void) {
   vf_guard_end();
   dfs_k = vf_tier ? 4 : 3;
   dfs_units = vf_dfs_units(&VF_SIGMA);
+  dfs1_units = vf_dfs_units(&VF_SIGMA1);
 }
 static void replay(const char* tag, const uint8_t* d, size_t len) {
   if (len < 32) return;
@@ -474,12 +480,12 @@ static void replay(const char* tag, const uint8_t* d, size_t len) {
 struct vf_check vf_the_check = {
     .property = "C06",
     .level = "fault_enumeration",
-    .rule = "scenarios: cbor_load of every accepted sequence of the pushdown DFS over Sigma; cbor_copy and cbor_serialize_alloc of every tree those loads return and of the "
+    .rule = "scenarios: cbor_load of every accepted sequence of the pushdown DFS over Sigma (3/4 heads) and over the structural alphabet Sigma' (5/6 heads), and of every boundary-corpus item of <= 700 bytes; cbor_copy and cbor_serialize_alloc of every tree those loads return and of the "
             "constructed-tree grammar (every tree in the thorough tier, every 16th in the quick tier); all 37 cbor_new_*/cbor_build_* builders; push / set-append / map add / add "
             "chunk / build_tag on containers holding 0..17 entries (crossing every growth step 0,1,2,4,8,16). For each scenario the N requests of the fault-free run are counted, "
             "then every single refusal k < N and every fail-stop suffix k < N is run (thorough: also every pair k < k2 < k+40). evaluations = runs; distinct_nontrivial = distinct "
             "(scenario, schedule) cells; states = distinct (scenario kind, N) classes",
-    .bounds = {"DFS to 3 heads; all single-refusal and fail-stop schedules", "DFS to 4 heads; single, fail-stop and pair schedules; whole constructed grammar"},
+    .bounds = {"DFS over Sigma to 3 heads and over Sigma' to 5 heads; all single-refusal and fail-stop schedules", "DFS over Sigma to 4 and Sigma' to 6 heads; single, fail-stop and pair schedules; whole constructed grammar"},
     .assumptions = {"a refusal is delivered iff the allocator's refused counter is non-zero; runs in which the schedule index is never reached are counted as absorbed, not judged",
                     "'unchanged' = identical byte image (address, size, contents) of every block that was live before the call, which includes reference counts",
                     "MEMERROR position oracle: request k belongs to head j iff the fault-free load of the first j heads makes more than k requests",
